@@ -885,7 +885,7 @@ impl CraneliftCompiler {
                     let (fallthrough, target) = self.insn_targets[&(insn_ptr as u32)];
 
                     let is_reg = (insn.opc & BPF_X) != 0;
-                    let is_32 = (insn.opc & BPF_JMP32) != 0;
+                    let is_32 = (insn.opc & ebpf::BPF_CLS_MASK) == BPF_JMP32;
                     let intcc = match insn.opc {
                         c if (c & BPF_ALU_OP_MASK) == BPF_JEQ => IntCC::Equal,
                         c if (c & BPF_ALU_OP_MASK) == BPF_JNE => IntCC::NotEqual,
